@@ -133,7 +133,7 @@ def run(ctx):
     rng = ctx.rng
     table = None
     n = 0
-    ncases = 1500 if ctx.thorough() else 250
+    ncases = 30000 if ctx.thorough() else 250
     for case in range(ncases):
         if ctx.stop():
             return
